@@ -167,6 +167,44 @@ func init() {
 		c.res = []Term{r}
 		return true
 	})
+	reg("slices.Max", "panics on an empty slice (an obligation in safe functions); the result is an element of the slice", func(c *callCtx) bool {
+		sl, ok := types.Unalias(c.argVals[0].Type()).Underlying().(*types.Slice)
+		if !ok {
+			return false
+		}
+		x := c.x
+		s0 := c.args[0]
+		x.safety(c.fr, c.n, app(">", app("s.len", s0.S), "0"), "slices.Max-nonempty", c.instr.Pos())
+		h := x.heapElem(sl.Elem())
+		es := x.ss.sortOf(sl.Elem())
+		r := x.fresh("max", c.resTypes[0])
+		at := x.elemAt(h, x.get(c.st, h).S, s0.S, "j", es)
+		c.n.assume(fmt.Sprintf("(exists ((j Int)) (and (<= 0 j) (< j (s.len %s)) (= %s %s)))", s0.S, at, r.S))
+		if es == SInt {
+			c.n.assume(fmt.Sprintf("(forall ((j Int)) (! (=> (and (<= 0 j) (< j (s.len %s))) (<= %s %s)) :pattern (%s)))", s0.S, at, r.S, at))
+		}
+		c.res = []Term{r}
+		return true
+	})
+	specMods["slices.Max"] = func(p *Program, c *ssa.CallCommon) []string { return nil }
+	reg("slices.Sort", "permutes the elements in place (length unchanged); nothing else changes", func(c *callCtx) bool {
+		sl, ok := types.Unalias(c.argVals[0].Type()).Underlying().(*types.Slice)
+		if !ok {
+			return false
+		}
+		x := c.x
+		h := x.heapElem(sl.Elem())
+		old := x.get(c.st, h).S
+		na := x.freshSort("sorted", "(Array Int "+x.ss.sortOf(sl.Elem())+")")
+		x.setNamed(c.n, c.st, h, app("store", old, app("s.arr", c.args[0].S), na.S))
+		return true
+	})
+	specMods["slices.Sort"] = func(p *Program, c *ssa.CallCommon) []string {
+		if sl, ok := types.Unalias(c.Args[0].Type()).Underlying().(*types.Slice); ok {
+			return []string{p.heapElemName(sl.Elem())}
+		}
+		return nil
+	}
 	specMods["slices.Contains"] = func(p *Program, c *ssa.CallCommon) []string { return nil }
 	specMods["slices.Clone"] = func(p *Program, c *ssa.CallCommon) []string { return nil }
 
